@@ -1,7 +1,7 @@
 (* C01 — Service accepts an AP-REQ exactly when RFC 4120 3.2.3 says it is valid. *)
 From Gokrb5.lib Require Import Bytes JV.
-From Gokrb5.model Require Import Keytab Crypto Replay APReq.
-From Gokrb5.proofs Require Import APReqProofs.
+From Gokrb5.model Require Import Keytab Crypto Replay Schema DER DERCodec RFCSchemas GoASN1 APReq APReqBytes.
+From Gokrb5.proofs Require Import APReqProofs GoASN1Proofs APReqBytesProofs.
 
 (* Success if and only if: the ticket decrypts under the keytab key selected by realm, kvno and etype for the
    service (or override) principal; now lies in the ticket's validity extended by the skew; the authenticator
@@ -35,3 +35,108 @@ Theorem C01_apreq_total : forall dec_ticket dec_auth st kt t rc tk aet ac,
   fst (verify_apreq dec_ticket dec_auth st kt t rc tk aet ac) <> Crash.
 Proof. exact apreq_total. Qed.
 Print Assumptions C01_apreq_total.
+
+(* ================= bytes mode: the model starts from the WIRE BYTES of the AP-REQ =================
+   model/APReqBytes.v: APReq.Unmarshal, Ticket.Unmarshal, EncTicketPart.Unmarshal, Authenticator.Unmarshal as gofork
+   asn1 decodes them (model/GoASN1.v, a Gallina re-implementation of the decoder), ending in the decision core above. *)
+(* Go's decoder reads back every DER encoding of the erased RFC type (explicit context tags, values within Go's
+   integer ranges), through [APPLICATION n], whatever follows the element. *)
+Theorem C01_unmarshal_reads_der : forall n g v rest,
+  gtag_ok n = true -> gok g = true -> g <> GRaw -> wfg g v = true ->
+  zlen (enc (TApp n (erase g)) v) < 2 ^ 31 ->
+  unmarshal_app n g (enc (TApp n (erase g)) v ++ rest) = Some v.
+Proof. exact unmarshal_app_enc. Qed.
+Print Assumptions C01_unmarshal_reads_der.
+
+(* The decoders of the two encrypted parts invert the RFC 4120 DER encoding of every well-formed sealed content,
+   whatever follows it (padding). *)
+Theorem C01_dec_ticket_der_encode : forall et pt rest,
+  wf_enc_ticket et = true -> encode rfc_EncTicketPart (inject_enc_ticket et) = Some pt -> zlen pt < 2 ^ 31 ->
+  dec_ticket_der (pt ++ rest) = Some et.
+Proof. exact dec_ticket_der_encode. Qed.
+Print Assumptions C01_dec_ticket_der_encode.
+
+Theorem C01_dec_auth_der_encode : forall au pt rest,
+  wf_authenticator au = true -> encode rfc_Authenticator (inject_authenticator au) = Some pt -> zlen pt < 2 ^ 31 ->
+  dec_auth_der (pt ++ rest) = Some au.
+Proof. exact dec_auth_der_encode. Qed.
+Print Assumptions C01_dec_auth_der_encode.
+
+(* APReq.Unmarshal on the RFC 4120 DER encoding of a well-formed AP-REQ returns its cleartext ticket and the
+   authenticator's etype and cipher. *)
+Theorem C01_parse_apreq_encode : forall tk aet ac wire rest,
+  wf_apreq tk aet ac = true -> encode rfc_APReq (inject_apreq tk aet ac) = Some wire -> zlen wire < 2 ^ 31 ->
+  parse_apreq (wire ++ rest) = Some (tk, aet, ac).
+Proof. exact parse_apreq_encode. Qed.
+Print Assumptions C01_parse_apreq_encode.
+
+(* Refinement: from the wire bytes of a well-formed AP-REQ, when the decrypted parts decode to et and au, the verdict
+   and the replay cache are those of the sealed-content model (C01_apreq_accept_iff etc. speak about it). *)
+Theorem C01_verify_apreq_bytes_refines : forall st kt t rc tk aet ac wire rest et au,
+  wf_apreq tk aet ac = true -> encode rfc_APReq (inject_apreq tk aet ac) = Some wire -> zlen wire < 2 ^ 31 ->
+  (forall kv ktype kvno pt,
+     get_key kt (match st_override st with Some o => o | None => tk_sname tk end)
+             (tk_realm tk) (tk_kvno tk) (tk_etype tk) = Ok (kv, ktype, kvno) ->
+     decrypt ktype kv 2 (tk_cipher tk) = Ok pt -> dec_ticket_der pt = Some et) ->
+  (forall apt, decrypt (et_keytype et) (et_key et) (auth_usage (tk_sname tk)) ac = Ok apt -> dec_auth_der apt = Some au) ->
+  verify_apreq_bytes st kt t rc (wire ++ rest) =
+  verify_apreq (fun _ => Some et) (fun _ => Some au) st kt t rc tk aet ac.
+Proof. exact verify_apreq_bytes_refines. Qed.
+Print Assumptions C01_verify_apreq_bytes_refines.
+
+(* ... with the decoder hypotheses discharged: the two plaintexts are RFC 4120 DER encodings followed by anything. *)
+Theorem C01_verify_apreq_bytes_refines_der : forall st kt t rc tk aet ac wire rest et au ept pad apt0 apad,
+  wf_apreq tk aet ac = true -> encode rfc_APReq (inject_apreq tk aet ac) = Some wire -> zlen wire < 2 ^ 31 ->
+  wf_enc_ticket et = true -> encode rfc_EncTicketPart (inject_enc_ticket et) = Some ept -> zlen ept < 2 ^ 31 ->
+  wf_authenticator au = true -> encode rfc_Authenticator (inject_authenticator au) = Some apt0 -> zlen apt0 < 2 ^ 31 ->
+  (forall kv ktype kvno pt,
+     get_key kt (match st_override st with Some o => o | None => tk_sname tk end)
+             (tk_realm tk) (tk_kvno tk) (tk_etype tk) = Ok (kv, ktype, kvno) ->
+     decrypt ktype kv 2 (tk_cipher tk) = Ok pt -> pt = ept ++ pad) ->
+  (forall apt, decrypt (et_keytype et) (et_key et) (auth_usage (tk_sname tk)) ac = Ok apt -> apt = apt0 ++ apad) ->
+  verify_apreq_bytes st kt t rc (wire ++ rest) =
+  verify_apreq (fun _ => Some et) (fun _ => Some au) st kt t rc tk aet ac.
+Proof. exact verify_apreq_bytes_refines_der. Qed.
+Print Assumptions C01_verify_apreq_bytes_refines_der.
+
+(* Nothing unsealed counts: a well-formed plaintext EncTicketPart after enc-part (Ticket.DecryptedEncPart is filled
+   from it at Unmarshal) changes neither what is parsed, nor the verdict, nor the replay cache. *)
+Theorem C01_unsealed_trailer_ignored : forall st kt t rc tk aet ac tv rest,
+  wf_apreq tk aet ac = true -> wfg go_EncTicketPart tv = true ->
+  zlen (apreq_wire (ticket_wire tk (Some tv)) aet ac) < 2 ^ 31 ->
+  zlen (apreq_wire (ticket_wire tk None) aet ac) < 2 ^ 31 ->
+  parse_apreq (apreq_wire (ticket_wire tk (Some tv)) aet ac ++ rest) =
+  parse_apreq (apreq_wire (ticket_wire tk None) aet ac ++ rest)
+  /\ verify_apreq_bytes st kt t rc (apreq_wire (ticket_wire tk (Some tv)) aet ac ++ rest) =
+     verify_apreq_bytes st kt t rc (apreq_wire (ticket_wire tk None) aet ac ++ rest).
+Proof. exact unsealed_trailer_ignored. Qed.
+Print Assumptions C01_unsealed_trailer_ignored.
+
+(* the wire without trailer is the RFC 4120 encoding *)
+Theorem C01_apreq_wire_rfc : forall tk aet ac,
+  apreq_wire (ticket_wire tk None) aet ac = enc rfc_APReq (inject_apreq tk aet ac).
+Proof. exact apreq_wire_rfc. Qed.
+Print Assumptions C01_apreq_wire_rfc.
+
+(* Totality: no wire input makes the acceptor panic; what does not parse is rejected and leaves the cache alone. *)
+Theorem C01_verify_apreq_bytes_total : forall st kt t rc wire, fst (verify_apreq_bytes st kt t rc wire) <> Crash.
+Proof. exact verify_apreq_bytes_total. Qed.
+Print Assumptions C01_verify_apreq_bytes_total.
+
+Theorem C01_parse_failure_rejects : forall st kt t rc wire,
+  parse_apreq wire = None -> verify_apreq_bytes st kt t rc wire = (Reject reject_unparsable, rc).
+Proof. exact parse_failure_rejects. Qed.
+Print Assumptions C01_parse_failure_rejects.
+
+(* Acceptance from bytes is the RFC 4120 3.2.3 conjunction of C01 on what was parsed, with the real decoders. *)
+Theorem C01_verify_apreq_bytes_accept_iff : forall st kt t rc wire id rc',
+  verify_apreq_bytes st kt t rc wire = (Accept id, rc') <->
+  exists tk aet ac, parse_apreq wire = Some (tk, aet, ac) /\
+                    rfc_valid dec_ticket_der dec_auth_der st kt t rc tk ac id rc'.
+Proof. exact verify_apreq_bytes_accept_iff. Qed.
+Print Assumptions C01_verify_apreq_bytes_accept_iff.
+
+Theorem C01_verify_apreq_bytes_reject_keeps_cache : forall st kt t rc wire o rc',
+  verify_apreq_bytes st kt t rc wire = (o, rc') -> (forall id, o <> Accept id) -> rc' = rc.
+Proof. exact verify_apreq_bytes_reject_keeps_cache. Qed.
+Print Assumptions C01_verify_apreq_bytes_reject_keeps_cache.
